@@ -132,7 +132,7 @@ def h_family(E, family, direction):
     E.observe(len(res))
 
 
-def h_family_xh(E, family, kind, direction="fwd"):
+def h_family_xh(E, family, kind, direction="fwd", renumber=False):
     """the precondition's other branch: all centre hydrogens are written explicitly.  Concrete reactions (keto-enol shift,
     MPV transfer hydrogenation, esterification with an additional non-migrating explicit hydrogen) with symbolic
     substituents; template = centre or full ITS; default reactor flags (explicit_h=True); the reaction must be among the
@@ -168,10 +168,13 @@ def h_family_xh(E, family, kind, direction="fwd"):
                 g.add_edge(a, b, order=o)
     for v, c in fam.get("charge_H", {}).items():
         H.nodes[v]["charge"] = c
-    _regenerates_xh(E, G, H, fam["hyd"], kind, direction, dict(family=family, kind=kind, direction=direction))
+    for v, c in fam.get("charge_G", {}).items():
+        G.nodes[v]["charge"] = c
+    _regenerates_xh(E, G, H, fam["hyd"], kind, direction, dict(family=family, kind=kind, direction=direction),
+                    renumber=renumber)
 
 
-def _regenerates_xh(E, G, H, hyd, kind, direction, info, strategies=("all",)):
+def _regenerates_xh(E, G, H, hyd, kind, direction, info, strategies=("all",), renumber=False):
     """(G, H) with explicit hydrogen nodes `hyd`: the template of the reaction, applied with the default reactor flags to the
     molecule as an unmapped SMILES gives it, must have the reaction among its results."""
     from synkit.Graph.ITS.its_construction import ITSConstruction
@@ -181,6 +184,17 @@ def _regenerates_xh(E, G, H, hyd, kind, direction, info, strategies=("all",)):
 
     its = ITSConstruction.ITSGraph(G, H)
     tmpl = get_rc(its) if kind == "rc" else its
+    if renumber:
+        # the same reaction written with other atom-map numbers and another atom order: heavy atoms of the template are
+        # permuted among their ids (solver-chosen), nodes inserted in the order of the new ids
+        heavy_t = sorted(v for v in tmpl.nodes if v not in hyd)
+        sigma = [int(x) for x in E.perm("sigma", len(heavy_t))]
+        mp = {v: heavy_t[sigma[i]] for i, v in enumerate(heavy_t)}
+        mp.update({v: v for v in tmpl.nodes if v in hyd})
+        tmpl = relabel(tmpl, mp, order=sorted(tmpl.nodes, key=lambda v: (mp[v] in hyd, mp[v])))
+        for v in tmpl.nodes:
+            tmpl.nodes[v]["atom_map"] = v
+        info = dict(info, sigma=sigma)
 
     def as_parsed(g):
         """hydrogens on heavy atoms are counts, H-H and a free proton are atoms"""
@@ -212,11 +226,17 @@ def _regenerates_xh(E, G, H, hyd, kind, direction, info, strategies=("all",)):
     E.observe(n_res)
 
 
-def h_own_xh(E, n, nh, kind, direction, omax=1):
+def h_own_xh(E, n, nh, kind, direction, omax=1, free=False):
     """all centre hydrogens explicit, symbolically: n heavy atoms (symbolic element, implicit count equal on both sides,
     bond orders per side) and nh explicit hydrogens, each bonded on either side to a solver-chosen heavy atom or (nh=2) to
     the other hydrogen (H-H); at least one hydrogen changes its partner."""
-    G, H, hyd, att = sym_xh_reaction(E, n, nh, omax)
+    from synkit.Graph.ITS.its_construction import ITSConstruction
+    from synkit.Graph.ITS.its_decompose import get_rc
+
+    G, H, hyd, att = sym_xh_reaction(E, n, nh, omax, free=free)
+    if kind == "rc":  # the centre describes the reaction only if every atom that changes is in it
+        rc = get_rc(ITSConstruction.ITSGraph(G, H))
+        E.assume(AND([EQ(G.nodes[v]["charge"], H.nodes[v]["charge"]) for v in G.nodes if v not in rc]))
     _regenerates_xh(E, G, H, hyd, kind, direction,
                     dict(n=n, nh=nh, kind=kind, direction=direction, attach={"%s%d" % k: v for k, v in att.items()}))
 
@@ -258,10 +278,16 @@ def shards(tier, seed):
     for kind in ("rc", "its"):
         for direction in ("fwd", "bwd"):
             sh.append(dict(h="family_xh", params=dict(family="redam", kind=kind, direction=direction)))
+    sh.append(dict(h="family_xh", params=dict(family="ncouple", kind="rc", direction="fwd", renumber=True)))
     for nh in (1, 2, 3):
         for kind in ("rc", "its"):
             for direction in ("fwd", "bwd"):
                 sh.append(dict(h="own_xh", params=dict(n=2, nh=nh, kind=kind, direction=direction)))
+    for nh in (1, 2):
+        for kind in ("rc", "its"):
+            for direction in ("fwd", "bwd"):
+                sh.append(dict(h="own_xh", params=dict(n=1 if nh == 2 else 2, nh=nh, kind=kind, direction=direction, free=True, omax=0)))
+                sh.append(dict(h="own_xh", params=dict(n=nh, nh=4 - nh, kind=kind, direction=direction, free=True, omax=0)))
     if tier == "thorough":
         for kind in ("rc", "its"):
             for direction in ("fwd", "bwd"):
